@@ -332,7 +332,10 @@ class Run:
     # -- finish
     def finish(self) -> int:
         wall = time.time() - self.t0
-        (VERIF / "evidence").mkdir(exist_ok=True)
+        # scratch runs (another tree via CE_REPO, or an explicit CE_EVIDENCE_DIR) never overwrite the committed evidence
+        evdir = Path(os.environ["CE_EVIDENCE_DIR"]) if os.environ.get("CE_EVIDENCE_DIR") else (
+            VERIF / "evidence" if str(REPO) == "/repo" else VERIF / "replays" / "scratch-evidence")
+        evdir.mkdir(parents=True, exist_ok=True)
         (VERIF / "replays").mkdir(exist_ok=True)
         failed_obl = [o for o in self.obligations if not o["ok"]]
         lines = []
@@ -391,7 +394,7 @@ class Run:
             "wall_s": round(wall, 2),
             "violations": nviol,
         }
-        (VERIF / "evidence" / f"{self.prop}.json").write_text(json.dumps(ev, indent=1, sort_keys=True) + "\n")
+        (evdir / f"{self.prop}.json").write_text(json.dumps(ev, indent=1, sort_keys=True) + "\n")
         for l in lines:
             print(l)
         print(
